@@ -10,6 +10,9 @@ import (
 	"os"
 	"os/exec"
 	"path/filepath"
+	"runtime"
+	"runtime/debug"
+	"runtime/pprof"
 	"sort"
 	"strconv"
 	"strings"
@@ -146,6 +149,14 @@ func (ov *overlaySet) cleanup() {
 // ---------------------------------------------------------------- worker
 
 func workerMain() {
+	// the loaded program (SSA + types) is a large, long-lived heap: collect rarely
+	debug.SetGCPercent(400)
+	runtime.GOMAXPROCS(2)
+	if pf := os.Getenv("GOSYM_CPUPROFILE"); pf != "" {
+		f, _ := os.Create(fmt.Sprintf("%s.%d", pf, os.Getpid()))
+		pprof.StartCPUProfile(f)
+		defer pprof.StopCPUProfile()
+	}
 	ov, err := buildOverlay()
 	if err != nil {
 		fmt.Fprintln(os.Stderr, "worker: overlay:", err)
@@ -211,6 +222,7 @@ type workerReq struct {
 }
 
 type worker struct {
+	stdin interface{}
 	cmd *exec.Cmd
 	in  *bufio.Writer
 	out *bufio.Reader
@@ -236,7 +248,7 @@ func startWorker(id int) (*worker, error) {
 	if err := cmd.Start(); err != nil {
 		return nil, err
 	}
-	w := &worker{cmd: cmd, in: bufio.NewWriterSize(stdin, 1<<20), out: bufio.NewReaderSize(stdout, 1<<20), id: id}
+	w := &worker{stdin: stdin, cmd: cmd, in: bufio.NewWriterSize(stdin, 1<<20), out: bufio.NewReaderSize(stdout, 1<<20), id: id}
 	line, err := w.out.ReadBytes('\n')
 	if err != nil {
 		return nil, fmt.Errorf("worker %d did not start: %v", id, err)
@@ -263,6 +275,14 @@ func (w *worker) do(req workerReq, v interface{}) error {
 
 func (w *worker) stop() {
 	if w == nil || w.cmd == nil {
+		return
+	}
+	if os.Getenv("GOSYM_CPUPROFILE") != "" {
+		w.in.Flush()
+		if c, ok := w.stdin.(interface{ Close() error }); ok {
+			c.Close()
+		}
+		w.cmd.Wait()
 		return
 	}
 	w.cmd.Process.Kill()
@@ -318,6 +338,9 @@ type tierCfg struct {
 }
 
 type harnessCfg struct {
+	// Only violations whose assertion id starts with one of these prefixes
+	// belong to this property (the harness is shared with another property).
+	AssertPrefix []string `json:"assert_prefix"`
 	Name     string  `json:"name"`
 	Pkg      string  `json:"pkg"`
 	Quick    tierCfg `json:"quick"`
@@ -779,6 +802,19 @@ func checkMain(prop, tier string) int {
 		deadline := time.Now().Add(time.Duration(to) * time.Second)
 		for _, params := range cfgsList {
 			st := explore(pl, h, tc, params, seed, deadline)
+			if len(h.AssertPrefix) > 0 {
+				var keep []interp.Violation
+				for _, v := range st.Violations {
+					own := v.Kind != "assert"
+					for _, pre := range h.AssertPrefix {
+						own = own || strings.HasPrefix(v.ID, pre)
+					}
+					if own {
+						keep = append(keep, v)
+					}
+				}
+				st.Violations = keep
+			}
 			all = append(all, st)
 			fmt.Printf("explored harness=%s params=%v paths=%d status=%v forks=%d queries=%d (sat %d unsat %d unknown %d) simplified=%d solver=%.1fs wall=%.1fs exhaustive=%v\n",
 				st.Harness, params, st.Paths, st.Status, st.Forks, st.Queries, st.QSat, st.QUnsat, st.QUnknown, st.QSimplified, st.SolverMs/1000, st.WallS, st.Exhaustive)
